@@ -285,16 +285,25 @@ pub fn replay_recorded(p: &Value, eng: &Engines) -> Outcome {
 pub fn one_case(d: &mut Draw, eng: &Engines, single: bool, known_rate: u32) -> Outcome {
     let mut cfg = GenCfg::exprs_only();
     cfg.known_per_mille = known_rate;
+    // C18-local bias (non-default generator flag): wrap shapes in `multi`
+    cfg.wrap_per_mille = if single { 0 } else { 250 };
+    for k in findings::NON_DEFAULT {
+        cfg.avoid.insert(k.to_string());
+    }
     let n_out = if single { 3 } else { 1 + d.below(4) as usize };
     let (g, infos) = gen_expr_design(d, &cfg, n_out, single);
     let design = &g.design;
     let text = print_design(design);
     let stim = gen_stimulus(d, design, 8);
-    let use_cc = !eng.cc.is_empty() && d.chance(1, 8);
+    let use_cc = !eng.cc.is_empty() && d.chance(1, 2);
     let ct_vec = d.below_usize(stim.steps.len());
     let mut configs = eng.fast.clone();
     if use_cc {
-        configs.extend(eng.cc.iter().cloned());
+        // one of the two cc variants per design (disable_ff_opt makes no
+        // difference for these purely combinational modules; a cc run costs
+        // a C compiler call); isolation of a failure uses both
+        let k = d.below_usize(eng.cc.len());
+        configs.push(eng.cc[k].clone());
     }
     let rt = reference_trace(design, &stim);
     let expected = expected_of(&rt);
@@ -481,11 +490,11 @@ pub fn run(ctx: &Ctx) {
     // known shapes stay visible at a low rate in `single` only
     let envn = std::env::var("C18_CASES").ok().and_then(|s| s.parse::<usize>().ok());
     let only = std::env::var("C18_SUB").ok();
-    let n1 = envn.unwrap_or(ctx.scale(450, 20_000));
+    let n1 = envn.unwrap_or(ctx.scale(900, 40_000));
     if only.as_deref() != Some("multi") {
         ctx.run("single", CaseCfg::cases(n1).choices(3000), |d| discover("C18", one_case(d, &eng, true, 10)));
     }
-    let n2 = envn.unwrap_or(ctx.scale(450, 20_000));
+    let n2 = envn.unwrap_or(ctx.scale(1500, 40_000));
     if only.as_deref() != Some("single") {
         ctx.run("multi", CaseCfg::cases(n2).choices(4000), |d| discover("C18", one_case(d, &eng, false, 0)));
     }
@@ -494,6 +503,6 @@ pub fn run(ctx: &Ctx) {
     ctx.assume("shapes listed in vdesign::findings (confirmed defects) are replaced by the generator and counted (`excluded:*` classes); `single` keeps them at 1 % so that they stay visible as KNOWN-FINDING lines");
     ctx.finish(
         "exploration",
-        "generated modules of 1-4 outputs `assign o = expr` over 2-6 ports of width 1..300 (signed 1/3), single-operator and nested expressions over every operator, 8 corner-biased vectors, under every Config::all() engine (cc on 1/8 of the designs) and compile-time evaluation with one vector as constants; non-trivial = some operand or result wider than 64 bits or a signed operand; distinct by text + vectors",
+        "generated modules of 1-4 outputs `assign o = expr` over 2-6 ports of width 1..300 (signed 1/3), single-operator and nested expressions over every operator, 8 corner-biased vectors, under every Config::all() engine (one cc variant on 1/2 of the designs) and compile-time evaluation with one vector as constants; non-trivial = some operand or result wider than 64 bits or a signed operand; distinct by text + vectors",
     );
 }
